@@ -345,6 +345,23 @@ func visitInstr(fr *frame, instr ssa.Instruction) continuation {
 	case *ssa.IndexAddr:
 		x := fr.get(instr.X)
 		idx := fr.get(instr.Index)
+		if si, ok := idx.(sym); ok {
+			if _, known := ex.known[si.t]; !known && onlyLoaded(instr) {
+				// element address with a symbolic index that is only loaded from:
+				// keep it symbolic, the load becomes an ite chain over the cells
+				var cells []value
+				switch x := x.(type) {
+				case []value:
+					cells = x
+				case *value:
+					cells = (*x).(array)
+				}
+				if scalarCells(cells) {
+					fr.env[instr] = symAddr{cells: cells, idx: si}
+					break
+				}
+			}
+		}
 		switch x := x.(type) {
 		case []value:
 			fr.env[instr] = &x[asInt64(idx)]
@@ -366,6 +383,10 @@ func visitInstr(fr *frame, instr ssa.Instruction) continuation {
 		}
 		switch x := x.(type) {
 		case array:
+			if si, ok := idx.(sym); ok && scalarCells(x) {
+				fr.env[instr] = selectCell(x, si)
+				break
+			}
 			fr.env[instr] = x[asInt64(idx)]
 		case symstr:
 			fr.env[instr] = x[asInt64(idx)]
